@@ -2,6 +2,7 @@ import CookModel.Lemmas.SpansData
 import CookModel.Lemmas.ClosingKeeps
 import CookModel.Lemmas.SpansDoc
 import CookModel.Lemmas.SpansFront
+import CookModel.Lemmas.SpansMeta
 /-
   C04, derived data, document level (wave 5).
 
@@ -744,4 +745,87 @@ theorem spanText_of {input : List Char} {T : List Tok} {sp : Span}
       rw [chain_lastStop c2.1, utf8Len_append]; omega
     · simp only
       rw [chain_lastStop c2.2]
+
+/-! ### the metadata-only stream carries no component -/
+
+theorem metadataEntry_shape : Sat (metadataEntry (α := α)) s (fun r _ => ∀ ev, r = some ev → ev.isComp = false) := by
+  have hk : Keeps (fun _ => True) (metadataEntry (α := α)) (fun r => ∀ ev, r = some ev → ev.isComp = false) := by
+    unfold metadataEntry
+    keeps
+    all_goals (refine Keeps.pure (fun ev hev => ?_); cases hev <;> simp [Ev.isComp])
+  exact (hk.run s trivial).2
+
+theorem runMetaBlock_q (cs : CharSpec) (ext : Ext) (blk : List Tok) (evs : Array (Ev α))
+    (hw : WFI off w blk) (hp : PlainQ Q) (hinv : AllQ Q evs) :
+    AllQ Q (runMetaBlock cs ext blk evs none).1 := by
+  have hc := sdat_ctx (α := α) hw hp
+  have g0 : GE (AllQ Q) blk ext (⟨blk, 0, ext, cs, evs, none⟩ : BP α) :=
+    ⟨⟨rfl, rfl, rfl, Nat.zero_le _⟩, hinv⟩
+  have hne : blk.isEmpty = false := by
+    have := hw.ne
+    cases blk <;> simp_all
+  have key : Sat (do
+      if blk.isEmpty then panicWith "BlockParser::new: empty tokens"
+      match ← metadataEntry (α := α) with
+      | some ev =>
+        pushEv ev
+        let s ← get
+        if s.cur ≠ s.toks.length then panicWith "Block tokens not parsed"
+      | none => pure ()) ⟨blk, 0, ext, cs, evs, none⟩
+      (fun _ s' => AllQ Q s'.evs) := by
+    simp only [hne, Bool.false_eq_true, if_false]
+    refine Sat.bind (Sat.mono (Sat.both (metadataEntry_ev hc g0) metadataEntry_shape) ?_)
+    rintro r s1 ⟨⟨g1, c1, hr⟩, hsh⟩
+    cases r with
+    | none => exact Sat.pure g1.evs
+    | some ev =>
+      refine Sat.bind (Sat.pushEv ?_)
+      refine Sat.bind (Sat.get ?_)
+      have : s1.cur = s1.toks.length := by rw [g1.g.toks]; exact c1 rfl
+      simp only [this, ne_eq, not_true_eq_false, if_false]
+      exact Sat.pure (g1.evs.push (hp _ (hsh ev rfl)))
+  exact key
+
+theorem foldl_runMetaBlock_q (cs : CharSpec) (ext : Ext) (blocks : List (List Tok))
+    (evs0 : Array (Ev α)) {b : Nat} (hp : PlainQ Q) (hinv : AllQ Q evs0) (hbl : BlocksIn off w b blocks) :
+    AllQ Q (blocks.foldl (fun acc blk => runMetaBlock (α := α) cs ext blk acc.1 acc.2) (evs0, none)).1 := by
+  induction blocks generalizing evs0 b with
+  | nil => exact hinv
+  | cons blk bs ih =>
+    rw [List.foldl_cons]
+    obtain ⟨hw, hb, hrest⟩ := hbl
+    have h1 := runMetaBlock_no_panic (α := α) cs ext blk evs0 hw.wf
+    have e1 : runMetaBlock (α := α) cs ext blk evs0 none =
+        ((runMetaBlock (α := α) cs ext blk evs0 none).1, none) := by
+      apply Prod.ext
+      · rfl
+      · exact h1
+    show AllQ Q (bs.foldl _ (runMetaBlock (α := α) cs ext blk evs0 none)).1
+    rw [e1]
+    exact ih _ (runMetaBlock_q cs ext blk evs0 hw hp hinv) hrest
+
+/-- every predicate that holds of all non-component events holds of every event of the metadata-only scanner -/
+theorem pullMetaEvents_q (cs : CharSpec) (ext : Ext) (input : List Char) (hp : PlainQ Q) :
+    AllQ Q (pullMetaEvents (α := α) cs ext input).1 := by
+  unfold pullMetaEvents
+  cases hpf : parseFrontmatter cs input with
+  | some fm =>
+    simp only
+    intro ev h
+    simp only [Array.toList, List.mem_singleton] at h
+    subst h
+    exact hp _ rfl
+  | none =>
+    simp only
+    apply foldl_runMetaBlock_q (off := 0) (w := input) cs ext _ _ hp (by intro ev h; simp at h)
+    apply metaBlocks_blocksIn _ _ _ 0 _ (Nat.le_refl _)
+    unfold lex
+    exact ⟨⟨lexFrom_chain cs 0 input, lexFrom_escapedOK cs 0 input⟩,
+      ⟨[], [], by simp [lexFrom_tile], by simp [utf8Len]⟩⟩
+
+theorem pullMetaEvents_evRead (cs : CharSpec) (ext : Ext) (input : List Char) :
+    ∀ ev ∈ (pullMetaEvents (α := α) cs ext input).1.toList, EvRead cs ext (pullToks cs input) ev := by
+  apply pullMetaEvents_q
+  intro ev hev
+  cases ev <;> first | trivial | (simp [Ev.isComp] at hev)
 end Cook
